@@ -324,8 +324,9 @@ func Run(rep *hx.Report, props Props, tier string, sh hx.Shard, deadline time.Ti
 				r.pairs(m, Programs(al, 10, 2), []uint64{2}, []uint64{12}, lims, true)
 				r.triples(m, al, 8, []uint64{2}, 10, lims[:1])
 			} else {
-				rep.Bound = "M in {8,5}, limits (M,M) and (3,4): all programs of length 1..2 over 16 letters alone; all ordered pairs of programs of length 1..2 over 6 letters x every offset at P=2; all triples over 5 letters; each x every shift x 3 offset spellings"
+				rep.Bound = "M in {8,5}, limits (M,M) and (3,4): all programs of length 1..2 over 16 letters and of length 3 over 6 letters alone (first and last instruction as entry point); all ordered pairs of programs of length 1..2 over 6 letters x every offset at P=2; all triples over 5 letters; each x every shift x 3 offset spellings"
 				r.singles(m, Programs(al, 16, 2), lims, 10)
+				r.singles(m, Programs(al, 6, 3)[42:], lims[:1], 10) // the 216 three-instruction programs over 6 letters
 				r.pairs(m, Programs(al, 6, 2), []uint64{2}, []uint64{10}, lims, true)
 				r.triples(m, al, 5, []uint64{2}, 8, lims[:1])
 			}
